@@ -1,1 +1,506 @@
+(* C02/Proofs.v — ownership invariant of the Repaired model and its consequences. *)
 From OV Require Import Common.Base C02.Model.
+From Coq Require Import ZifyBool ZifyN.
+Open Scope N_scope.
+
+(* ------------------------------------------------------------------ association lists *)
+Lemma assoc_setassoc_eq k v l : assoc k (setassoc k v l) = Some v.
+Proof. unfold setassoc; simpl. rewrite N.eqb_refl. reflexivity. Qed.
+Lemma assoc_unassoc_eq k l : assoc k (unassoc k l) = None.
+Proof.
+  induction l as [|[a b] r IH]; simpl; auto.
+  destruct (a =? k) eqn:E; auto. simpl. rewrite E. exact IH.
+Qed.
+Lemma assoc_unassoc_neq k k' l : k <> k' -> assoc k' (unassoc k l) = assoc k' l.
+Proof.
+  intros Hn. induction l as [|[a b] r IH]; simpl; auto.
+  destruct (a =? k) eqn:E.
+  - apply N.eqb_eq in E. subst a. destruct (k =? k') eqn:E2; [apply N.eqb_eq in E2; contradiction|exact IH].
+  - simpl. destruct (a =? k'); auto.
+Qed.
+Lemma assoc_setassoc_neq k k' v l : k <> k' -> assoc k' (setassoc k v l) = assoc k' l.
+Proof.
+  intros Hn. unfold setassoc; simpl.
+  destruct (k =? k') eqn:E; [apply N.eqb_eq in E; contradiction|]. apply assoc_unassoc_neq; exact Hn.
+Qed.
+
+Lemma remove1_in x k l : In x (remove1 k l) -> In x l.
+Proof.
+  induction l as [|a r IH]; simpl; auto.
+  destruct (a =? k); simpl; intuition.
+Qed.
+Lemma remove1_nodup k l : NoDup l -> NoDup (remove1 k l) /\ ~ In k (remove1 k l).
+Proof.
+  induction 1 as [|a r Hn Hd IH]; simpl.
+  - split; [constructor|tauto].
+  - destruct (a =? k) eqn:E.
+    + apply N.eqb_eq in E; subst a. split; assumption.
+    + destruct IH as [IH1 IH2]. split.
+      * constructor; [|exact IH1]. intros Hin; apply Hn; eapply remove1_in; exact Hin.
+      * simpl. intros [H|H]; [subst a; rewrite N.eqb_refl in E; discriminate|tauto].
+Qed.
+
+Lemma nodup_snoc (l : list N) a : NoDup l -> ~ In a l -> NoDup (l ++ [a]).
+Proof.
+  induction 1 as [|b r Hb Hr IH]; simpl; intros Hn.
+  - constructor; [tauto|constructor].
+  - constructor.
+    + intros Hin. apply in_app_or in Hin. destruct Hin as [Hin|[Hin|[]]]; [contradiction|].
+      subst. apply Hn. left; reflexivity.
+    + apply IH. intros Hin; apply Hn; right; exact Hin.
+Qed.
+
+(* ------------------------------------------------------------------ pools *)
+Definition geom_ok (g : geom) : Prop :=
+  forall x sl, slot_of g x = Some sl -> slot_of g (item_of g sl) = Some sl.
+Definition valid_slot (p : pool) (sl : N) : Prop :=
+  slot_of (p_geom p) (item_of (p_geom p) sl) = Some sl.
+
+Lemma geom_ok_range lo hi ex : geom_ok (GRange lo hi ex).
+Proof.
+  intros [a l] sl; simpl.
+  destruct ((lo <=? a) && (a <=? hi)) eqn:E; [|discriminate].
+  intros H; inversion H; subst sl. rewrite E. reflexivity.
+Qed.
+
+Definition pool_wf (p : pool) : Prop :=
+  geom_ok (p_geom p) /\ NoDup (p_free p) /\
+  (forall sl, In sl (p_free p) -> lease_of p sl = None) /\
+  (forall sl, In sl (p_free p) -> valid_slot p sl) /\
+  (forall sl s, lease_of p sl = Some s -> valid_slot p sl).
+
+Lemma take_lease p sl s sl' :
+  lease_of (pool_take p sl s) sl' = if sl =? sl' then Some s else lease_of p sl'.
+Proof.
+  unfold lease_of, pool_take, with_lf; cbn [p_leases].
+  destruct (sl =? sl') eqn:E.
+  - apply N.eqb_eq in E; subst. apply assoc_setassoc_eq.
+  - apply assoc_setassoc_neq. intros ->. rewrite N.eqb_refl in E; discriminate.
+Qed.
+
+Lemma take_wf p sl s :
+  pool_wf p -> lease_of p sl = None -> valid_slot p sl -> pool_wf (pool_take p sl s).
+Proof.
+  intros (Hg & Hnd & Hfl & Hfv & Hlv) Hnone Hval.
+  destruct (remove1_nodup sl _ Hnd) as [Hnd' Hnin].
+  unfold pool_wf, valid_slot in *. simpl p_geom. simpl p_free.
+  repeat split; auto.
+  - intros sl' Hin. rewrite take_lease.
+    destruct (sl =? sl') eqn:E; [apply N.eqb_eq in E; subst; contradiction|].
+    apply Hfl. eapply remove1_in; exact Hin.
+  - intros sl' Hin. apply Hfv. eapply remove1_in; exact Hin.
+  - intros sl' s'. rewrite take_lease. destruct (sl =? sl') eqn:E.
+    + apply N.eqb_eq in E; subst. intros _. exact Hval.
+    + apply Hlv.
+Qed.
+
+Lemma release_lease_other p sl s sl' t :
+  lease_of p sl' = Some t -> t <> s -> lease_of (pool_release Repaired p sl s) sl' = Some t.
+Proof.
+  intros Hl Hn. unfold pool_release.
+  destruct (lease_of p sl) as [o|] eqn:E; [|exact Hl].
+  simpl owner_ok. destruct (o =? s) eqn:Eo; [|exact Hl].
+  apply N.eqb_eq in Eo; subst o.
+  unfold lease_of; simpl.
+  assert (sl <> sl') by (intros ->; rewrite Hl in E; inversion E; contradiction).
+  rewrite assoc_unassoc_neq; auto.
+Qed.
+
+Lemma release_lease_sub v p sl s sl' t :
+  lease_of (pool_release v p sl s) sl' = Some t -> lease_of p sl' = Some t.
+Proof.
+  unfold pool_release. destruct (lease_of p sl) as [o|] eqn:E; auto.
+  destruct (owner_ok v o s); auto.
+  unfold lease_of; simpl. destruct (N.eq_dec sl sl') as [->|Hn].
+  - rewrite assoc_unassoc_eq. discriminate.
+  - rewrite assoc_unassoc_neq; auto.
+Qed.
+
+Lemma release_wf v p sl s : pool_wf p -> pool_wf (pool_release v p sl s).
+Proof.
+  intros W. unfold pool_release.
+  destruct (lease_of p sl) as [o|] eqn:E; auto.
+  destruct (owner_ok v o s); auto.
+  destruct W as (Hg & Hnd & Hfl & Hfv & Hlv).
+  assert (Hnf : ~ In sl (p_free p)) by (intros Hin; rewrite (Hfl _ Hin) in E; discriminate).
+  unfold pool_wf, valid_slot in *. simpl p_geom; simpl p_free.
+  repeat split; auto.
+  - apply nodup_snoc; auto.
+  - intros sl' Hin. unfold lease_of; simpl. apply in_app_or in Hin. destruct Hin as [Hin|[<-|[]]].
+    + assert (sl <> sl') by (intros ->; contradiction). rewrite assoc_unassoc_neq; auto. apply Hfl; auto.
+    + apply assoc_unassoc_eq.
+  - intros sl' Hin. apply in_app_or in Hin. destruct Hin as [Hin|[<-|[]]]; auto. eapply Hlv; exact E.
+  - intros sl' s'. unfold lease_of; simpl. destruct (N.eq_dec sl sl') as [->|Hn].
+    + rewrite assoc_unassoc_eq. discriminate.
+    + rewrite assoc_unassoc_neq; auto. apply Hlv.
+Qed.
+
+(* ------------------------------------------------------------------ registry *)
+Definition pool_id (p : pool) : fam * N := (p_fam p, p_key p).
+Definition psig (p : pool) : fam * N * geom := (p_fam p, p_key p, p_geom p).
+
+Lemma fam_eqb_spec a b : fam_eqb a b = true <-> a = b.
+Proof. destruct a, b; simpl; split; intros H; try discriminate; auto. Qed.
+Lemma same_pool_spec p q : same_pool p q = true <-> pool_id p = pool_id q.
+Proof.
+  unfold same_pool, pool_id. rewrite andb_true_iff, fam_eqb_spec, N.eqb_eq.
+  split; [intros [-> ->]; reflexivity | intros H; inversion H; auto].
+Qed.
+Lemma psig_id p q : psig p = psig q -> pool_id p = pool_id q.
+Proof. unfold psig, pool_id. intros H; inversion H; reflexivity. Qed.
+
+Lemma nodup_id_eq (l : list pool) p q :
+  NoDup (map pool_id l) -> In p l -> In q l -> pool_id p = pool_id q -> p = q.
+Proof.
+  induction l as [|a r IH]; simpl; [tauto|].
+  intros Hn Hp Hq He. inversion Hn as [|? ? Hna Hnr]; subst.
+  destruct Hp as [->|Hp], Hq as [->|Hq]; auto.
+  - exfalso. apply Hna. rewrite He. apply in_map; exact Hq.
+  - exfalso. apply Hna. rewrite <- He. apply in_map; exact Hp.
+Qed.
+
+Definition reg_ok (r : reg) : Prop := NoDup (map pool_id (pools r)) /\ Forall pool_wf (pools r).
+
+Definition owns (r : reg) (f : fam) (vrf : N) (x : item) (s : N) : Prop :=
+  (exists p sl, In p (pools r) /\ p_fam p = f /\ slot_of (p_geom p) x = Some sl /\ lease_of p sl = Some s)
+  \/ ((forall p, In p (pools r) -> p_fam p = f -> slot_of (p_geom p) x = None) /\
+      sassoc (f, vrf, x) (statics r) = Some s).
+
+Definition same_shape (r r' : reg) : Prop := map psig (pools r') = map psig (pools r).
+Definition pres (P : N -> Prop) (r r' : reg) : Prop :=
+  forall t f v x, P t -> owns r f v x t -> owns r' f v x t.
+Definition step_ok (P : N -> Prop) (r r' : reg) : Prop :=
+  reg_ok r -> reg_ok r' /\ same_shape r r' /\ pres P r r'.
+
+Lemma step_ok_refl P r : step_ok P r r.
+Proof. intros H; repeat split; auto; try apply H. intros t f v x _ Ho; exact Ho. Qed.
+Lemma step_ok_trans P r1 r2 r3 : step_ok P r1 r2 -> step_ok P r2 r3 -> step_ok P r1 r3.
+Proof.
+  intros H12 H23 Hok. destruct (H12 Hok) as (Hok2 & Hs2 & Hp2). destruct (H23 Hok2) as (Hok3 & Hs3 & Hp3).
+  repeat split; try apply Hok3.
+  - unfold same_shape in *. congruence.
+  - intros t f v x Pt Ho. apply Hp3; auto.
+Qed.
+Lemma step_ok_weaken (P Q : N -> Prop) r r' : (forall t, Q t -> P t) -> step_ok P r r' -> step_ok Q r r'.
+Proof.
+  intros HPQ H Hok. destruct (H Hok) as (A & B & C). repeat split; try apply A; auto.
+  intros t f v x Qt. apply C; auto.
+Qed.
+
+(* a pool-wise transformation that keeps signatures, well-formedness and the leases of sessions in P *)
+Lemma map_pools_ok (P : N -> Prop) r (G : pool -> pool) :
+  (reg_ok r -> forall q, In q (pools r) ->
+     psig (G q) = psig q /\ pool_wf (G q) /\
+     (forall sl t, P t -> lease_of q sl = Some t -> lease_of (G q) sl = Some t)) ->
+  step_ok P r (mkReg (map G (pools r)) (statics r)).
+Proof.
+  intros HG Hok. specialize (HG Hok). destruct Hok as [Hnd Hwf].
+  assert (Hsig : map psig (map G (pools r)) = map psig (pools r)).
+  { rewrite map_map. apply map_ext_in. intros q Hq. apply HG; exact Hq. }
+  split; [split|split].
+  - simpl. assert (Hid : map pool_id (map G (pools r)) = map pool_id (pools r)).
+    { rewrite map_map. apply map_ext_in. intros q Hq. apply psig_id. apply HG; exact Hq. }
+    rewrite Hid. exact Hnd.
+  - simpl. apply Forall_forall. intros q' Hq'. apply in_map_iff in Hq'. destruct Hq' as (q & <- & Hq).
+    apply HG; exact Hq.
+  - exact Hsig.
+  - intros t f v x Pt [ (p & sl & Hin & Hf & Hs & Hl) | [Hnone Hst] ].
+    + left. exists (G p), sl. destruct (HG p Hin) as (Hsg & _ & Hls).
+      unfold psig in Hsg. inversion Hsg as [[Hf' Hk' Hg']].
+      repeat split; simpl.
+      * apply in_map; exact Hin.
+      * congruence.
+      * rewrite Hg'. exact Hs.
+      * apply Hls; auto.
+    + right. split; [|exact Hst]. simpl. intros p' Hin' Hf'.
+      apply in_map_iff in Hin'. destruct Hin' as (q & <- & Hq).
+      destruct (HG q Hq) as (Hsg & _ & _). unfold psig in Hsg. inversion Hsg as [[Hf2 Hk2 Hg2]].
+      rewrite Hg2. apply Hnone; auto. congruence.
+Qed.
+
+Lemma upd_pool_ok (P : N -> Prop) r p p' :
+  In p (pools r) -> psig p' = psig p -> (pool_wf p -> pool_wf p') ->
+  (forall sl t, P t -> lease_of p sl = Some t -> lease_of p' sl = Some t) ->
+  step_ok P r (upd_pool r p').
+Proof.
+  intros Hin Hsig Hwf Hls. unfold upd_pool. apply map_pools_ok.
+  intros [Hnd HF] q Hq. destruct (same_pool q p') eqn:E.
+  - apply same_pool_spec in E. assert (q = p).
+    { eapply nodup_id_eq; eauto. rewrite E. apply psig_id; exact Hsig. }
+    subst q. split; [exact Hsig|split].
+    + apply Hwf. eapply Forall_forall in HF; eauto.
+    + exact Hls.
+  - split; [reflexivity|split].
+    + eapply Forall_forall in HF; eauto.
+    + intros sl t _ Hl; exact Hl.
+Qed.
+
+Lemma upd_pool_in r p p' : In p (pools r) -> psig p' = psig p -> In p' (pools (upd_pool r p')).
+Proof.
+  intros Hin Hsig. unfold upd_pool; simpl. apply in_map_iff. exists p. split; auto.
+  assert (same_pool p p' = true) by (apply same_pool_spec; symmetry; apply psig_id; exact Hsig).
+  rewrite H. reflexivity.
+Qed.
+
+Lemma fam_pools_in f r p : In p (fam_pools f r) -> In p (pools r) /\ p_fam p = f.
+Proof.
+  unfold fam_pools. intros H. apply filter_In in H. destruct H as [H1 H2].
+  apply fam_eqb_spec in H2. auto.
+Qed.
+
+Definition anyone (t : N) : Prop := True.
+Definition other_than (s : N) (t : N) : Prop := t <> s.
+
+(* ---- allocation: nobody loses anything, the answer is owned by the session *)
+Lemma alloc_in_ok r p s f r' res :
+  reg_ok r -> In p (pools r) -> p_fam p = f -> In (r', res) (alloc_in r p s) ->
+  step_ok anyone r r' /\ exists x k, res = Some (x, k) /\ forall v, owns r' f v x s.
+Proof.
+  intros Hok Hin Hf Hc. unfold alloc_in in Hc. apply in_map_iff in Hc.
+  destruct Hc as (sl & Heq & Hsl). inversion Heq; subst r' res; clear Heq.
+  assert (Hwf : pool_wf p) by (destruct Hok as [_ HF]; eapply Forall_forall in HF; eauto).
+  destruct Hwf as (Hg & Hnd & Hfl & Hfv & Hlv).
+  assert (Hsig : psig (pool_take p sl s) = psig p) by reflexivity.
+  split.
+  - apply upd_pool_ok with (p := p); auto.
+    + intros W. apply take_wf; auto.
+    + intros sl' t _ Hl. rewrite take_lease. destruct (sl =? sl') eqn:E; auto.
+      apply N.eqb_eq in E; subst sl'. rewrite (Hfl _ Hsl) in Hl. discriminate.
+  - eexists _, _. split; [reflexivity|]. intros v. left. exists (pool_take p sl s), sl.
+    repeat split.
+    + apply upd_pool_in with (p := p); auto.
+    + exact Hf.
+    + apply Hfv; exact Hsl.
+    + rewrite take_lease, N.eqb_refl. reflexivity.
+Qed.
+
+Lemma find_in {A} (g : A -> bool) l a : find g l = Some a -> In a l /\ g a = true.
+Proof. intros H. apply find_some in H. exact H. Qed.
+
+Lemma alloc_walk_ok f prof vrf s r r' res :
+  reg_ok r -> In (r', res) (alloc_walk f prof vrf s r) ->
+  step_ok anyone r r' /\ (res = None \/ exists x k, res = Some (x, k) /\ forall v, owns r' f v x s).
+Proof.
+  intros Hok. unfold alloc_walk.
+  destruct (find _ (fam_pools f r)) as [p|] eqn:E.
+  - apply find_in in E. destruct E as [E _]. apply fam_pools_in in E. destruct E as [Hin Hf].
+    intros Hc. destruct (alloc_in_ok _ _ _ _ _ _ Hok Hin Hf Hc) as [A B]. split; auto.
+  - intros [H|[]]. inversion H; subst. split; [apply step_ok_refl|left; reflexivity].
+Qed.
+
+Lemma alloc_from_profile_ok f prof ov vrf s r r' res :
+  reg_ok r -> In (r', res) (alloc_from_profile f prof ov vrf s r) ->
+  step_ok anyone r r' /\ (res = None \/ exists x k, res = Some (x, k) /\ forall v, owns r' f v x s).
+Proof.
+  intros Hok. unfold alloc_from_profile.
+  destruct ov as [k|]; [|apply alloc_walk_ok; exact Hok].
+  destruct (find _ (fam_pools f r)) as [p|] eqn:E; [|apply alloc_walk_ok; exact Hok].
+  destruct (isnil (p_free p)); [apply alloc_walk_ok; exact Hok|].
+  apply find_in in E. destruct E as [E _]. apply fam_pools_in in E. destruct E as [Hin Hf].
+  intros Hc. destruct (alloc_in_ok _ _ _ _ _ _ Hok Hin Hf Hc) as [A B]. split; auto.
+Qed.
+
+(* ---- reservation: nobody loses anything; on success the address is owned by the session *)
+Lemma reserve_in_ok r p x s f r' ok :
+  reg_ok r -> In p (pools r) -> p_fam p = f -> contains p x = true -> reserve_in r p x s = (r', ok) ->
+  step_ok anyone r r' /\ (ok = true -> forall v, owns r' f v x s).
+Proof.
+  intros Hok Hin Hf Hc. unfold reserve_in, contains in *.
+  destruct (slot_of (p_geom p) x) as [sl|] eqn:Es; [|discriminate].
+  assert (Hwf : pool_wf p) by (destruct Hok as [_ HF]; eapply Forall_forall in HF; eauto).
+  destruct Hwf as (Hg & Hnd & Hfl & Hfv & Hlv).
+  unfold pool_reserve. destruct (lease_of p sl) as [o|] eqn:El.
+  - destruct (o =? s) eqn:Eo; intros H; inversion H; subst r' ok; clear H.
+    + apply N.eqb_eq in Eo; subst o. split.
+      * apply upd_pool_ok with (p := p); auto.
+      * intros _ v. left. exists p, sl. repeat split; auto. apply upd_pool_in with (p := p); auto.
+    + split; [apply step_ok_refl|discriminate].
+  - intros H; inversion H; subst r' ok; clear H. split.
+    + apply upd_pool_ok with (p := p); auto.
+      * intros W. apply take_wf; auto. unfold valid_slot. eapply Hg; exact Es.
+      * intros sl' t _ Hl. rewrite take_lease. destruct (sl =? sl') eqn:E; auto.
+        apply N.eqb_eq in E; subst sl'. rewrite El in Hl; discriminate.
+    + intros _ v. left. exists (pool_take p sl s), sl. repeat split; auto.
+      * apply upd_pool_in with (p := p); auto.
+      * rewrite take_lease, N.eqb_refl. reflexivity.
+Qed.
+
+Lemma item_eqb_spec x y : item_eqb x y = true <-> x = y.
+Proof.
+  destruct x, y; unfold item_eqb; simpl. rewrite andb_true_iff, !N.eqb_eq.
+  split; [intros [-> ->]; reflexivity|intros H; inversion H; auto].
+Qed.
+Lemma skey_eqb_spec a b : skey_eqb a b = true <-> a = b.
+Proof.
+  destruct a as [[f1 v1] x1], b as [[f2 v2] x2]; simpl.
+  rewrite !andb_true_iff, fam_eqb_spec, N.eqb_eq, item_eqb_spec.
+  split; [intros [[-> ->] ->]; reflexivity|intros H; inversion H; auto].
+Qed.
+Lemma sassoc_cons k a b l : sassoc k ((a, b) :: l) = if skey_eqb a k then Some b else sassoc k l.
+Proof. reflexivity. Qed.
+Lemma sassoc_sunassoc_neq k k' l : k <> k' -> sassoc k' (sunassoc k l) = sassoc k' l.
+Proof.
+  intros Hn. induction l as [|[a b] r IH]; simpl; auto.
+  destruct (skey_eqb a k) eqn:E.
+  - apply skey_eqb_spec in E; subst a. destruct (skey_eqb k k') eqn:E2; [apply skey_eqb_spec in E2; contradiction|exact IH].
+  - simpl. destruct (skey_eqb a k'); auto.
+Qed.
+
+Lemma filter_nil_none {A} (g : A -> bool) l : filter g l = [] -> forall a, In a l -> g a = false.
+Proof.
+  intros H a Hin. destruct (g a) eqn:E; auto.
+  assert (In a (filter g l)) by (apply filter_In; auto). rewrite H in H0. destruct H0.
+Qed.
+
+Lemma reserve_cont_ok f x vrf s r r' ok :
+  reg_ok r -> In (r', ok) (reserve_cont Repaired f x vrf s r) ->
+  step_ok anyone r r' /\ (ok = true -> owns r' f vrf x s).
+Proof.
+  intros Hok. unfold reserve_cont.
+  destruct (filter (fun p => contains p x) (fam_pools f r)) as [|c cs] eqn:Ef.
+  - assert (Hnone : forall p, In p (pools r) -> p_fam p = f -> slot_of (p_geom p) x = None).
+    { intros p Hin Hf. pose proof (filter_nil_none _ _ Ef p) as H.
+      assert (In p (fam_pools f r)) by (unfold fam_pools; apply filter_In; split; auto; apply fam_eqb_spec; auto).
+      specialize (H H0). unfold contains in H. destruct (slot_of (p_geom p) x); [discriminate|reflexivity]. }
+    destruct (sassoc (f, vrf, x) (statics r)) as [o|] eqn:Es.
+    + intros [H|[]]. inversion H; subst r' ok. split; [apply step_ok_refl|].
+      intros Ho. apply N.eqb_eq in Ho; subst o. right. split; auto.
+    + intros [H|[]]. inversion H; subst r' ok; clear H. split.
+      * intros _. split; [exact Hok|split; [reflexivity|]].
+        intros t f' v' x' _ [Hl|[Hn Hs]]; [left; exact Hl|right]. split; [exact Hn|].
+        cbn [statics]. rewrite sassoc_cons. destruct (skey_eqb (f, vrf, x) (f', v', x')) eqn:E; [|exact Hs].
+        apply skey_eqb_spec in E. inversion E; subst. rewrite Es in Hs. discriminate.
+      * intros _. right. split; [exact Hnone|]. cbn [statics]. rewrite sassoc_cons.
+        assert (skey_eqb (f, vrf, x) (f, vrf, x) = true) by (apply skey_eqb_spec; reflexivity).
+        rewrite H. reflexivity.
+  - rewrite <- Ef. intros Hc. apply in_map_iff in Hc. destruct Hc as (p & Heq & Hp).
+    apply filter_In in Hp. destruct Hp as [Hp Hcon]. apply fam_pools_in in Hp. destruct Hp as [Hin Hf].
+    destruct (reserve_in_ok _ _ _ _ _ _ _ Hok Hin Hf Hcon Heq) as [A B]. split; auto.
+Qed.
+
+(* ---- release (Repaired): sessions other than the releasing one lose nothing *)
+Lemma release_pool_ok f key x s r :
+  step_ok (other_than s) r (release_pool Repaired f key x s r).
+Proof.
+  unfold release_pool. destruct (find _ (fam_pools f r)) as [p|] eqn:E; [|apply step_ok_refl].
+  apply find_in in E. destruct E as [E _]. apply fam_pools_in in E. destruct E as [Hin Hf].
+  destruct (raw_slot (p_geom p) x) as [sl|]; [|apply step_ok_refl].
+  apply upd_pool_ok with (p := p); auto.
+  - unfold pool_release. destruct (lease_of p sl); [destruct (owner_ok Repaired n s)|]; reflexivity.
+  - apply release_wf.
+  - intros sl' t Ht Hl. apply release_lease_other; auto.
+Qed.
+
+Lemma release_static_ok f x vrf s r :
+  step_ok (other_than s) r (release_static Repaired f x vrf s r).
+Proof.
+  unfold release_static. destruct (sassoc (f, vrf, x) (statics r)) as [o|] eqn:Es; [|apply step_ok_refl].
+  destruct (o =? s) eqn:Eo; [|apply step_ok_refl]. apply N.eqb_eq in Eo; subst o.
+  intros Hok. split; [exact Hok|split; [reflexivity|]].
+  intros t f' v' x' Ht [Hl|[Hn Hs]]; [left; exact Hl|right]. split; [exact Hn|]. cbn [statics].
+  destruct (skey_eqb (f, vrf, x) (f', v', x')) eqn:E.
+  - apply skey_eqb_spec in E. inversion E; subst. rewrite Es in Hs. unfold other_than in Ht. congruence.
+  - rewrite sassoc_sunassoc_neq; auto. intros H. rewrite <- skey_eqb_spec in H. congruence.
+Qed.
+
+Lemma release_all_ok f x s r : step_ok (other_than s) r (release_all Repaired f x s r).
+Proof.
+  unfold release_all. apply map_pools_ok. intros [Hnd HF] q Hq.
+  assert (Hwf : pool_wf q) by (eapply Forall_forall in HF; eauto).
+  destruct (fam_eqb (p_fam q) f); [|split; [reflexivity|split; [exact Hwf|intros ? ? _ H; exact H]]].
+  destruct (raw_slot (p_geom q) x) as [sl|]; [|split; [reflexivity|split; [exact Hwf|intros ? ? _ H; exact H]]].
+  split; [|split].
+  - unfold pool_release. destruct (lease_of q sl); [destruct (owner_ok Repaired n s)|]; reflexivity.
+  - apply release_wf; exact Hwf.
+  - intros sl' t Ht Hl. apply release_lease_other; auto.
+Qed.
+
+Lemma release_ip_ok f x vrf s r r' :
+  In r' (release_ip Repaired f x vrf s r) -> step_ok (other_than s) r r'.
+Proof.
+  unfold release_ip. pose proof (release_static_ok f x vrf s r) as H0.
+  set (r0 := release_static Repaired f x vrf s r) in *.
+  assert (Hall : forall f', step_ok (other_than s) r (release_all Repaired f' x s r0)).
+  { intros f'. eapply step_ok_trans; [exact H0|apply release_all_ok]. }
+  destruct f; try (intros [<-|[]]; apply Hall).
+  destruct (filter (fun p => contains p x) (fam_pools FD r0)) as [|c cs] eqn:Ef.
+  - intros [<-|[]]; exact H0.
+  - rewrite <- Ef. intros Hc. apply in_map_iff in Hc. destruct Hc as (p & <- & Hp).
+    apply filter_In in Hp. destruct Hp as [Hp _]. apply fam_pools_in in Hp. destruct Hp as [Hin Hf].
+    destruct (slot_of (p_geom p) x) as [sl|]; [|exact H0].
+    eapply step_ok_trans; [exact H0|].
+    apply upd_pool_ok with (p := p); auto.
+    + unfold pool_release. destruct (lease_of p sl); [destruct (owner_ok Repaired n s)|]; reflexivity.
+    + apply release_wf.
+    + intros sl' t Ht Hl. apply release_lease_other; auto.
+Qed.
+
+(* the DHCPv4 provider never touches another session's registry lease (Repaired) *)
+Lemma prov_release_ok pr r mac s pr' r' :
+  prov_release Repaired pr r mac s = (pr', r') -> step_ok (other_than s) r r'.
+Proof.
+  unfold prov_release. destruct (assoc mac (by_mac pr)); [|intros H; inversion H; apply step_ok_refl].
+  destruct (lassoc n (objs pr)) as [l|]; [|intros H; inversion H; apply step_ok_refl].
+  intros H; inversion H; subst. destruct (l_pool l); [apply release_pool_ok|apply step_ok_refl].
+Qed.
+Lemma prov_reserve_reg pr r ip mac sid pool pr' r' ok :
+  prov_reserve Repaired pr r ip mac sid pool = (pr', r', ok) -> r' = r.
+Proof.
+  unfold prov_reserve. destruct (assoc ip (by_ip pr)); [|intros H; inversion H; reflexivity].
+  destruct (lassoc n (objs pr)) as [l|]; [|intros H; inversion H; reflexivity].
+  destruct (l_mac l =? mac); [intros H; inversion H; reflexivity|].
+  destruct (l_exp l); intros H; inversion H; reflexivity.
+Qed.
+
+(* ---- one owner per (family, VRF, address) when pools of a family do not overlap *)
+Definition pools_disjoint (r : reg) : Prop :=
+  forall p q x, In p (pools r) -> In q (pools r) -> p_fam p = p_fam q ->
+                contains p x = true -> contains q x = true -> pool_id p = pool_id q.
+
+Lemma owns_functional r f v x s t :
+  reg_ok r -> pools_disjoint r -> owns r f v x s -> owns r f v x t -> s = t.
+Proof.
+  intros [Hnd _] Hd [ (p & sl & Hp & Hf & Hs & Hl) | [Hn Hst] ] [ (q & sl' & Hq & Hf' & Hs' & Hl') | [Hn' Hst'] ].
+  - assert (p = q).
+    { eapply nodup_id_eq; eauto. apply Hd with (x := x); auto; try congruence;
+      unfold contains; [rewrite Hs|rewrite Hs']; reflexivity. }
+    subst q. rewrite Hs in Hs'. inversion Hs'; subst sl'. rewrite Hl in Hl'. inversion Hl'; reflexivity.
+  - rewrite (Hn' p Hp Hf) in Hs. discriminate.
+  - rewrite (Hn q Hq Hf') in Hs'. discriminate.
+  - rewrite Hst in Hst'. inversion Hst'; reflexivity.
+Qed.
+
+(* ---- uniqueness from the ownership invariant *)
+Definition told_is_owned (st : state) : Prop :=
+  forall s f x, In s (st_sess st) -> holds s f = Some x -> owns (st_reg st) f (s_vrf s) x (s_id s).
+
+Lemma unique_from_ownership st s1 s2 f x :
+  reg_ok (st_reg st) -> pools_disjoint (st_reg st) -> told_is_owned st ->
+  In s1 (st_sess st) -> In s2 (st_sess st) -> s_vrf s1 = s_vrf s2 ->
+  holds s1 f = Some x -> holds s2 f = Some x -> s_id s1 = s_id s2.
+Proof.
+  intros Hok Hd Hinv H1 H2 Hv Hh1 Hh2.
+  pose proof (Hinv _ _ _ H1 Hh1) as O1. pose proof (Hinv _ _ _ H2 Hh2) as O2.
+  rewrite Hv in O1. eapply owns_functional; eauto.
+Qed.
+
+Lemma init_reg_ok ps :
+  NoDup (map pool_id ps) -> Forall pool_wf ps -> reg_ok (mkReg ps []).
+Proof. intros; split; assumption. Qed.
+
+Lemma new_pool_wf_range f key prof vrf lo hi ex : pool_wf (new_pool f key prof vrf (GRange lo hi ex)).
+Proof.
+  assert (Hseq : forall n a x, In x (nseq a n) -> a <= x < a + N.of_nat n).
+  { induction n as [|n IH]; simpl; intros a x; [tauto|]. intros [<-|H]; [lia|]. apply IH in H. lia. }
+  assert (Hnd : forall n a, NoDup (nseq a n)).
+  { induction n as [|n IH]; simpl; intros a; constructor; auto. intros H. apply Hseq in H. lia. }
+  unfold pool_wf, new_pool, valid_slot, lease_of; simpl p_geom; simpl p_free; simpl p_leases.
+  split; [apply geom_ok_range|]. split; [|split; [|split]].
+  - unfold init_free. destruct (hi <? lo); [constructor|]. apply NoDup_filter. apply Hnd.
+  - reflexivity.
+  - intros sl. unfold init_free. destruct (hi <? lo) eqn:E; [intros []|].
+    intros H. apply filter_In in H. destruct H as [H _]. apply Hseq in H.
+    cbn [item_of slot_of fst]. apply N.ltb_ge in E.
+    assert ((lo <=? sl) && (sl <=? hi) = true) by lia. rewrite H0. reflexivity.
+  - simpl. discriminate.
+Qed.
